@@ -1,5 +1,6 @@
 """C06 — compression is lossless, correctly labelled and only what the client accepts."""
 import re
+import resource
 import struct
 
 from kv import Case, xn, xb, xl, xlist, xbool, xopt, xparse
@@ -9,6 +10,13 @@ MODULE = "C06"
 IMPORTS = "Bytes RustInt Range Negotiate NegotiateProofs ListHeaderProofs"
 PROFILES = ("dev", "nochk")
 KERNEL_SAMPLE = 30
+# the extracted model recurses over the body (1 MiB in the thorough tier): give the model driver, a child of this
+# process, the stack the hard limit allows (the soft default of 8 MiB is too small for a million-element list)
+try:
+    _soft, _hard = resource.getrlimit(resource.RLIMIT_STACK)
+    resource.setrlimit(resource.RLIMIT_STACK, (_hard, _hard))
+except (ValueError, OSError):
+    pass
 SV = "forall (parse_q : bytes -> option qclass) (parse_mime : bytes -> option mime) (enc : alg -> N -> bytes -> bytes)"
 THEOREMS = [
     ("chosen_is_listed", SV + r""" (c : cresp) (ae : option bytes) (o : options) (l : option bytes) (b : bytes) (ch : coding) (c' : cresp),
